@@ -209,6 +209,36 @@ def compare(kind, spec, expr, sides):
     raise AnalysisError('bad reference spec')
 
 
+def inline_siblings(repo, expr, m, seen=()):
+    """replace calls of the four formula functions inside `expr` by their expression for measure m (the
+    "bound computed through the sibling helper" idiom)"""
+    import copy
+    from .common import subst_names
+
+    class T(ast.NodeTransformer):
+        def visit_Call(s, n):
+            n = s.generic_visit(n)
+            name = n.func.id if isinstance(n.func, ast.Name) else None
+            if name in REF and name not in seen:
+                g = repo.fn(FILTER_UTILS, name)
+                table, gview = read_branches(None, g)
+                rows = [r for r in table.get(m, []) if r[1] is not None
+                        and not all(set(s_.keys()) == {'num:' + N} and s_['num:' + N] == 0 for s_ in r[2])]
+                if len(rows) != 1:
+                    raise AnalysisError('%s: cannot inline sibling %s for measure %s' % (FILTER_UTILS, name, m))
+                o = rows[0][1]
+                e = gview.expand(o.stmt.value, o.stmt)
+                mapping = {}
+                for p_, a in zip(g.params, n.args):
+                    mapping[p_] = a
+                for kw in n.keywords:
+                    mapping[kw.arg] = kw.value
+                e = subst_names(e, mapping)
+                return inline_siblings(repo, e, m, seen + (name,))
+            return n
+    return T().visit(copy.deepcopy(expr))
+
+
 def run(ctx, measures, mode, funcs=None):
     """mode: 'safe' or 'tight'. measures: which rows are charged to the calling property."""
     ctx.group('R-FORM')
@@ -231,6 +261,7 @@ def run(ctx, measures, mode, funcs=None):
                     n_inst += 1
                     continue
                 expr = view.expand(o.stmt.value, o.stmt) if o.stmt.value is not None else ast.Constant(None)
+                expr = inline_siblings(repo, expr, m, (fname,))
                 zero_side = all(set(s.keys()) == {'num:' + N} and s['num:' + N] == 0 for s in sides)
                 if fname == 'get_prefix_length' and zero_side:
                     try:
